@@ -98,6 +98,27 @@ def rearm_clauses(spec: dict[str, Any], run: Run) -> list[tuple[str, str]]:
     return out
 
 
+def stale_completion_clauses(spec: dict[str, Any], run: Run, got: dict[str, Any]) -> list[tuple[str, str]]:
+    """"every iteration re-runs each of them": a re-armed stage that ends SUCCEEDED must have executed its tasks after its last
+    re-arm - a completion message of the previous iteration may not stand in for the run of the new one."""
+    last_rearm: dict[str, int] = {}
+    for _seq, step, writer, kind, ident, _old, new in run.w.audit():
+        if kind == "stage" and new == "NOT_STARTED" and writer in ("JumpToStage", "RestartStage"):
+            last_rearm[ident.replace("W1-", "")] = step
+    led = tasks.ledger_snapshot()
+    out = []
+    for s in spec["stages"]:
+        r = s["ref"]
+        if r not in last_rearm or got["stages"].get(r) != "SUCCEEDED":
+            continue
+        for i, _t in enumerate(s["tasks"]):
+            if not any(e["stage"] == r and e["task"] == i and e["step"] > last_rearm[r] for e in led):
+                out.append(("completed-without-running-after-rearm", f"stage {r} was re-armed at step {last_rearm[r]} and ended SUCCEEDED, but its task t{i} did not execute after that "
+                            f"(executions at steps {[e['step'] for e in led if e['stage'] == r and e['task'] == i]})"))
+                break
+    return out
+
+
 def judge(c: Campaign, spec: dict[str, Any], run: Run, desc: Any, extra=()) -> None:
     model = loop_model(spec)
     got = run.outcome()
@@ -131,6 +152,7 @@ def judge(c: Campaign, spec: dict[str, Any], run: Run, desc: Any, extra=()) -> N
             kind = "extra-execution" if have > want else "missing-execution"
             viol.append((kind + (f"|stuck:{stuck}" if stuck and have < want else ""), f"{r}: executed {have}x, model {want}x"))
     viol.extend(rearm_clauses(spec, run))
+    viol.extend(stale_completion_clauses(spec, run, got))
     ids: dict[str, int] = {}
     for mid, typ in run.w.handler_calls:
         if typ == "JumpToStage":
@@ -237,6 +259,22 @@ def shard_grid(prop: str, tier: str, seed: int, shape: str) -> dict[str, Any]:
     return c.export()
 
 
+def shard_straggler(prop: str, tier: str, seed: int, shape: str) -> dict[str, Any]:
+    """One long-delayed message: every (message type, k-th occurrence, delay) of a single straggler that survives the jump
+    and arrives in the next iteration, for the shapes in which stages beside the router are re-armed."""
+    c = Campaign(prop, tier, seed, LEVEL)
+    for j in ((1, 2) if tier == "quick" else (1, 2, 3)):
+        spec = make_loop(shape, j, None)
+        model = loop_model(spec)
+        for typ in ("CompleteTask", "RunTask", "StartTask", "CompleteStage", "StartStage", "JumpToStage"):
+            for occ in range(0, 10 if tier == "quick" else 16):
+                for hold_for in ((12, 40) if tier == "quick" else (6, 12, 25, 40, 80)):
+                    sd = {"style": "hold-one", "d": [], "R": 2, "hold_one": typ, "occurrence": occ, "hold_for": hold_for}
+                    run = Run(spec, make_schedule(sd), max_steps=60 * (sum(model["execs"].values()) + 10) * 2).drain()
+                    judge(c, spec, run, sd, ["straggler", f"straggler:{typ}"])
+    return c.export()
+
+
 def _dispatch(fn, a):  # noqa: ANN001
     return fn(*a)
 
@@ -246,8 +284,9 @@ def run(c: Campaign, jobs: int) -> None:
     shards = max(1, jobs)
     args = [(shard, (c.prop, c.tier, c.seed * 1000 + k, max(1, n // shards))) for k in range(shards)]
     args += [(shard_grid, (c.prop, c.tier, c.seed, shape)) for shape in LOOP_SHAPES]
+    args += [(shard_straggler, (c.prop, c.tier, c.seed, shape)) for shape in ("side_target", "side", "cycle3", "two_routers", "nested", "mid_target")]
     run_shards(c, _dispatch, args, jobs)
-    c.exhaustive_parts.append("FIFO grid: 10 loop shapes x budget {unset,0,1,2,3} x requested jumps {always,0,1,2,3,4,(11,12 with default budget)}")
+    c.exhaustive_parts.append("FIFO grid: 11 loop shapes x budget {unset,0,1,2,3} x requested jumps {always,0,1,2,3,4,(11,12 with default budget)}")
     c.rule = ("case = (loop spec, schedule). Non-trivial = >= 2 applied jumps, or >= 1 applied jump on a shape with a fan-in / skip "
               "boundary next to the re-arm set (side, fwd, mid_target, nested, random back edge). Distinct = hash of the case.")
     c.assumptions += [
